@@ -23,6 +23,7 @@ import (
 	"github.com/cosmos/cosmos-sdk/codec"
 	codectypes "github.com/cosmos/cosmos-sdk/codec/types"
 	cryptocodec "github.com/cosmos/cosmos-sdk/crypto/codec"
+	servertypes "github.com/cosmos/cosmos-sdk/server/types"
 	storetypes "github.com/cosmos/cosmos-sdk/store/types"
 	simutils "github.com/cosmos/cosmos-sdk/testutil/sims"
 	sdk "github.com/cosmos/cosmos-sdk/types"
@@ -522,4 +523,36 @@ func (n *Node) Balance(addr sdk.AccAddress) *big.Int {
 // Supply reads the native total supply from the deliver state.
 func (n *Node) Supply() *big.Int {
 	return n.App.BankKeeper.GetSupply(n.Ctx(), Denom).Amount.BigInt()
+}
+
+// NewNodeFromExport initialises a fresh application from an exported genesis (as `InitChain` after an export at a
+// non-zero height does) and commits. The returned error string is non-empty if InitChain panicked.
+func NewNodeFromExport(exp servertypes.ExportedApp, old *Node) (m *Node, perr string) {
+	defer func() {
+		if r := recover(); r != nil {
+			perr = fmt.Sprint(r)
+		}
+	}()
+	db := dbm.NewMemDB()
+	a := newApp(db, old.ChainID)
+	var vals []abci.ValidatorUpdate
+	var tmVals []abci.Validator
+	for _, v := range exp.Validators {
+		pk, err := cryptoenc.PubKeyToProto(v.PubKey)
+		if err != nil {
+			panic(err)
+		}
+		vals = append(vals, abci.ValidatorUpdate{PubKey: pk, Power: v.Power})
+		tmVals = append(tmVals, abci.Validator{Address: v.PubKey.Address(), Power: v.Power})
+	}
+	a.InitChain(abci.RequestInitChain{
+		Time: old.Header.Time, ChainId: old.ChainID, Validators: vals,
+		ConsensusParams: exp.ConsensusParams, AppStateBytes: exp.AppState, InitialHeight: exp.Height,
+	})
+	a.Commit()
+	sortVals(tmVals)
+	m = &Node{App: a, DB: db, ChainID: old.ChainID, Opts: old.Opts,
+		Header:  tmproto.Header{ChainID: old.ChainID, Height: a.LastBlockHeight(), Time: old.Header.Time, AppHash: a.LastCommitID().Hash},
+		ValsCur: tmVals, ValsNext: cloneVals(tmVals), ValsNN: cloneVals(tmVals)}
+	return m, ""
 }
